@@ -8,7 +8,6 @@ package main
 
 import (
 	"fmt"
-	"sort"
 	"strings"
 )
 
@@ -161,53 +160,143 @@ func (r *Run) fingerprint(name string, args []Value, env []Value) (string, map[i
 	return fs.sb.String(), fs.vars
 }
 
-// relevantPC returns a canonical key of the conjuncts of the path condition
-// that (transitively) share variables with vars.
-func (r *Run) relevantPC(vars map[int]*Term) string {
-	e := r.eng
-	rel := map[int]bool{}
-	for id := range vars {
-		rel[id] = true
-	}
-	used := make([]bool, len(r.pcT))
-	for changed := true; changed; {
-		changed = false
-		for i, c := range r.pcT {
-			if used[i] {
-				continue
-			}
-			cv := e.termVars(c)
-			hit := false
-			for _, v := range cv {
-				if rel[v.ID] {
-					hit = true
-					break
-				}
-			}
-			if hit {
-				used[i] = true
-				changed = true
-				for _, v := range cv {
-					rel[v.ID] = true
-				}
-			}
+// ufState groups the variables of the path condition into components
+// (variables linked by a common conjunct); each component carries an
+// order-independent hash of its conjuncts. Pushes are logged so that the
+// state can be rolled back when the path condition is truncated.
+type ufState struct {
+	parent map[int]int
+	size   map[int]int
+	hash   map[int]pcHash // per root
+	log    []ufUndo
+	marks  []int // log length before the i-th conjunct was pushed
+}
+
+type ufUndo struct {
+	kind     int // 0 new node, 1 attach, 2 hash change
+	node     int
+	root     int
+	oldSize  int
+	oldHash  pcHash
+	rootHash pcHash
+}
+
+func newUF() *ufState {
+	return &ufState{parent: map[int]int{}, size: map[int]int{}, hash: map[int]pcHash{}}
+}
+
+func (u *ufState) find(x int) int {
+	for {
+		p, ok := u.parent[x]
+		if !ok || p == x {
+			return x
 		}
+		x = p
 	}
-	var lits []int
-	for i := range r.pcT {
-		if used[i] {
-			lits = append(lits, int(r.pc[i]))
+}
+
+func litHash(l Lit) pcHash {
+	x := uint64(int64(l)) * 0x9E3779B97F4A7C15
+	x ^= x >> 32
+	y := (uint64(int64(l)) + 0x12345) * 0xC2B2AE3D27D4EB4F
+	y ^= y >> 29
+	return pcHash{x, y}
+}
+
+func (r *Run) ufPush(c *Term, l Lit) {
+	if r.uf == nil {
+		r.uf = newUF()
+	}
+	u := r.uf
+	u.marks = append(u.marks, len(u.log))
+	vars := r.eng.termVars(c)
+	if len(vars) == 0 {
+		return
+	}
+	root := -1
+	for _, v := range vars {
+		if _, ok := u.parent[v.ID]; !ok {
+			u.parent[v.ID] = v.ID
+			u.size[v.ID] = 1
+			u.log = append(u.log, ufUndo{kind: 0, node: v.ID})
 		}
-	}
-	sort.Ints(lits)
-	var sb strings.Builder
-	prev := 0
-	for i, l := range lits {
-		if i > 0 && l == prev {
+		rv := u.find(v.ID)
+		if root == -1 {
+			root = rv
 			continue
 		}
-		prev = l
-		fmt.Fprintf(&sb, "%d,", l)
+		if rv == root {
+			continue
+		}
+		// attach the smaller under the larger
+		big, small := root, rv
+		if u.size[small] > u.size[big] {
+			big, small = small, big
+		}
+		u.log = append(u.log, ufUndo{kind: 1, node: small, root: big, oldSize: u.size[big], oldHash: u.hash[big], rootHash: u.hash[small]})
+		u.parent[small] = big
+		u.size[big] += u.size[small]
+		hb, hs := u.hash[big], u.hash[small]
+		u.hash[big] = pcHash{hb.a + hs.a, hb.b + hs.b}
+		root = big
 	}
-	return sb.String()
+	h := u.hash[root]
+	u.log = append(u.log, ufUndo{kind: 2, root: root, oldHash: h})
+	lh := litHash(l)
+	u.hash[root] = pcHash{h.a + lh.a, h.b + lh.b}
+}
+
+func (r *Run) ufTruncate(n int) {
+	u := r.uf
+	if u == nil || n >= len(u.marks) {
+		return
+	}
+	target := u.marks[n]
+	for len(u.log) > target {
+		e := u.log[len(u.log)-1]
+		u.log = u.log[:len(u.log)-1]
+		switch e.kind {
+		case 0:
+			delete(u.parent, e.node)
+			delete(u.size, e.node)
+			delete(u.hash, e.node)
+		case 1:
+			u.parent[e.node] = e.node
+			u.size[e.root] = e.oldSize
+			u.hash[e.root] = e.oldHash
+			u.hash[e.node] = e.rootHash
+		case 2:
+			u.hash[e.root] = e.oldHash
+		}
+	}
+	u.marks = u.marks[:n]
+}
+
+// relevantPC returns a key of the conjuncts of the path condition that
+// (transitively) share variables with vars: the component hashes of those
+// variables (order-independent).
+func (r *Run) relevantPC(vars map[int]*Term) string {
+	u := r.uf
+	if u == nil {
+		return ""
+	}
+	seen := map[int]bool{}
+	var acc pcHash
+	n := 0
+	for id := range vars {
+		if _, ok := u.parent[id]; !ok {
+			continue
+		}
+		root := u.find(id)
+		if seen[root] {
+			continue
+		}
+		seen[root] = true
+		h := u.hash[root]
+		// combine commutatively over components, keeping the root identity out of it
+		acc.a += h.a*0x100000001B3 + 7
+		acc.b += h.b ^ (h.a >> 7)
+		n++
+	}
+	return fmt.Sprintf("%x.%x.%d", acc.a, acc.b, n)
 }
